@@ -457,13 +457,20 @@ func (x *Exec) applyContract(st *State, fr *Frame, c *FuncContract, key string, 
 		if idx < 0 || res[idx].K != KIface {
 			unsupported("dyntype %s: no such interface result in %s", rn, key)
 		}
-		ptr := strings.HasPrefix(tn, "*")
-		t := env.lookupType(strings.TrimPrefix(tn, "*"))
+		// <type> ::= [ "[]" ] [ "*" ] <named type>
+		base := tn
+		isSlice := strings.HasPrefix(base, "[]")
+		base = strings.TrimPrefix(base, "[]")
+		ptr := strings.HasPrefix(base, "*")
+		t := env.lookupType(strings.TrimPrefix(base, "*"))
 		if t == nil {
 			unsupported("dyntype %s: unknown type %s", rn, tn)
 		}
 		if ptr {
 			t = types.NewPointer(t)
+		}
+		if isSlice {
+			t = types.NewSlice(t)
 		}
 		dv := x.symbolic(st, t, "dyn."+rn)
 		res[idx].Dyn = &dv
